@@ -488,7 +488,7 @@ Section LinDynamics.
 
   (** ---- one mapped mass-action reaction at a metabolic steady state ---------------------------- *)
   Section Rxn.
-    Variable rk : repl_kind.     (* form of the isotopomer mapper's argument renaming: irrelevant under the hypotheses below *)
+    Variable rk : repl_kind.     (* form of the isotopomer mapper's argument renaming *)
     Variable lv : label_vars.
     Variable r : brxn.
     Variable mun : list nat.
@@ -517,7 +517,7 @@ Section LinDynamics.
     Hypothesis Hfn : r_fn r = FProd.
     Hypothesis Hargs : Permutation (r_args r) (bs ++ extra).
     Hypothesis Hnd_st : NoDup (map fst (r_stoich r)).
-    Hypothesis Hnd_bs : NoDup bs.
+    Hypothesis Hrk : rk = ReplPositional \/ NoDup bs.   (* per-occurrence renaming, or no compound twice on the substrate side *)
     Hypothesis Hextra : forall a, In a extra -> ~ In a bs /\ ~ In a bp /\ nlab lv a = O /\ (rk = ReplPositional -> getN a lv = None).
     Hypothesis Hperm : Permutation mun (seq O NN).
     Hypothesis Hpool : forall c, In c bs -> envL (LPlain c) = Benv lv envI c.
@@ -557,7 +557,7 @@ Section LinDynamics.
     Proof.
       intro Hp. unfold ratep, sfx, psfx.
       rewrite (rate_mass_action R rO rI radd rmul rsub ropp rinv Rth true rk lv r lmap envI extra
-                                Hfn Hargs Hnd_st Hnd_bs Hextra p).
+                                Hfn Hargs Hnd_st Hrk Hextra p).
       rewrite (subpairs_W R rI rmul true lv r envI p Hp). reflexivity.
     Qed.
 
@@ -565,7 +565,7 @@ Section LinDynamics.
     Proof.
       rewrite v_eq.
       exact (sum_rates R rO rI radd rmul rsub ropp rinv Rth true rk lv r lmap envI extra
-                       Hfn Hargs Hnd_st Hnd_bs Hextra).
+                       Hfn Hargs Hnd_st Hrk Hextra).
     Qed.
 
     (** K1: the rate-weighted marginal of flattened substrate position [h] is the linear model's
@@ -760,7 +760,7 @@ Section LinDynamics.
     intros rk lv r lmap extra envI envL isos irxns lrxns mun bs bp tsl tpl
            Hfn Hargs Hnd_st Hnd_bs Hextra _ Hlab Hlmap Hperm Hiso Hisos Hlin Hpool Hflux Hmarg Hext c i _ Hi.
     subst lmap.
-    apply (enrichment_rate_core rk lv r mun extra envI envL Hfn Hargs Hnd_st Hnd_bs Hextra Hperm) with (isos := isos);
+    apply (enrichment_rate_core rk lv r mun extra envI envL Hfn Hargs Hnd_st (or_intror Hnd_bs) Hextra Hperm) with (isos := isos);
       try assumption.
     intros c' Hc'. apply Hpool. apply in_or_app. left. exact Hc'.
   Qed.
